@@ -11,7 +11,7 @@ use serde_json::{json, Value};
 use std::io::{Cursor, Write};
 
 fn text(v: &Value) -> String {
-    v.as_array().map(|a| a.iter().map(|c| match c.as_str().unwrap() { "e'" => "é", o => o }).collect::<String>()).unwrap_or_default()
+    v.as_array().map(|a| a.iter().map(|c| match c.as_str().unwrap() { "e'" => "é", "L'" => "Ł", "c'" => "с", "t'" => "т", o => o }).collect::<String>()).unwrap_or_default()
 }
 
 pub fn workbook(b: &Value) -> (Value, Vec<((u32, u32), String, String)>) {
@@ -120,9 +120,9 @@ pub fn drive(args: &Args) -> i32 {
     let mut rng = StdRng::seed_from_u64(args.seed() ^ 0xC15);
     let mut out = std::io::BufWriter::new(std::fs::File::create(args.req("out")).unwrap());
     // (text, feature) atoms without references
-    let plain: [(&str, &str); 14] = [("SUM(", ""), (")", ""), ("+", ""), ("*", ""), (",", ""), ("\"x\"", ""), ("\"A3\"", ""), ("10", ""), ("1.5", ""),
-        ("Rate", ""), ("TRUE", ""), ("LOG10(", "FuncDigits"), ("TAX2020", "NameCellLike"), ("1E5", "SciNumber")];
-    let sheets: [(&str, &str); 3] = [("Data!", ""), ("'My Sheet'!", ""), ("AB1!", "SheetCellLike")];
+    let plain: [(&str, &str); 16] = [("SUM(", ""), (")", ""), ("+", ""), ("*", ""), (",", ""), ("\"x\"", ""), ("\"A3\"", ""), ("10", ""), ("1.5", ""),
+        ("Rate", ""), ("TRUE", ""), ("ZŁ1", ""), ("été", ""), ("LOG10(", "FuncDigits"), ("TAX2020", "NameCellLike"), ("1E5", "SciNumber")];
+    let sheets: [(&str, &str); 4] = [("Data!", ""), ("'My Sheet'!", ""), ("AB1!", "SheetCellLike"), ("ст1!", "")];
     for run in 0..n {
         let off = (rng.gen_range(0..5i64), rng.gen_range(0..5i64));
         let k = rng.gen_range(1..7);
@@ -151,7 +151,7 @@ pub fn drive(args: &Args) -> i32 {
                 let (t, f) = plain[rng.gen_range(0..plain.len())];
                 s.push_str(t); ideal.push_str(t);
                 if !f.is_empty() { feats.push(f); }
-                last_alnum = t.chars().last().map_or(false, |c| c.is_ascii_alphanumeric());
+                last_alnum = t.chars().last().map_or(false, |c| c.is_alphanumeric());
             }
         }
         feats.sort();
